@@ -279,6 +279,35 @@ func ruleC20(c *Ctx) {
 		c.checkShape(good, "GUARD", "entry decoded from its start element", s.Pos(), "the value sent is the Entry filled by DecodeElement(&e, &startElement) just before", "the value sent is not visibly the Entry decoded by the single DecodeElement call")
 	}
 
+	// the decoder stays strict: with Strict = false (or AutoClose / Entity tables) encoding/xml accepts
+	// malformed input silently, so damage is not reported as the property requires
+	lenient := false
+	for _, g := range family(parse) {
+		eachInstr(g, func(i ssa.Instruction) {
+			st, ok := i.(*ssa.Store)
+			if !ok {
+				return
+			}
+			fa, ok := st.Addr.(*ssa.FieldAddr)
+			if !ok || tname(deref(fa.X.Type())) != "encoding/xml.Decoder" {
+				return
+			}
+			switch storeFieldName(fa) {
+			case "Strict":
+				if k, isC := st.Val.(*ssa.Const); isC && k.Value != nil && k.Value.String() == "false" {
+					lenient = true
+					c.bad("GUARD", "decoder stays strict", st.Pos(), "the XML decoder is switched to Strict = false: a bare '&', an unknown entity, an unquoted attribute or a missing end tag is accepted without an error, so a malformed stream is delivered as if it were well-formed and nothing is reported")
+				}
+			case "AutoClose", "Entity":
+				lenient = true
+				c.undecided("GUARD", "decoder stays strict", st.Pos(), "the XML decoder's "+storeFieldName(fa)+" table is set; what it accepts is not modelled")
+			}
+		})
+	}
+	if !lenient {
+		c.ok("GUARD", "decoder stays strict", parse.Pos(), "no store into the decoder's Strict / AutoClose / Entity fields")
+	}
+
 	// ---- Read
 	rview := newFamView(read)
 	rtb := rview.tb[read]
